@@ -250,6 +250,19 @@ func buildCopiesConfig(c *Ctx) {
 			if p.Exit != ExitReturn {
 				continue
 			}
+			// Build reads the builder, it does not configure it: a default installed on the builder's (shared) condition
+			// sets at Build time becomes permanent for everything built from that builder later. The hedge's default cancel
+			// condition, installed only while none is configured, is the one upstream exception.
+			for _, e := range p.Events() {
+				if e.Kind != EvCall || !buildRegistrars[e.Method] {
+					continue
+				}
+				if pkg == "hedgepolicy" && e.Method == "AbortIf" {
+					continue
+				}
+				ok = false
+				c.Fail(c.fn(fn)+"@"+pkg, c.P.FuncPos(fn), "Build calls "+e.Method+" on the builder: configuring the builder at Build time changes every policy built from it afterwards", pathTrace(ev, p))
+			}
 			r := p.Rets[0]
 			cfg := ev.LoadField(p.State, r, "config")
 			if r.Op != "alloc" || cfg == nil || cfg.Op != "alloc" || cfg == recv {
@@ -277,3 +290,7 @@ func buildCopiesConfig(c *Ctx) {
 	}
 	c.Floor("snapshotting Build methods", n, 4)
 }
+
+// buildRegistrars: the condition registrars of the shared policy bases.
+var buildRegistrars = map[string]bool{"HandleErrors": true, "HandleErrorTypes": true, "HandleResult": true, "HandleIf": true,
+	"AbortOnErrors": true, "AbortOnErrorTypes": true, "AbortOnResult": true, "AbortIf": true}
